@@ -209,7 +209,9 @@ class extract_visitor(NodeVisitor):
         self.flow = self.make_flow('join', [orelse] + handlers)
         self.flow.scope.flow = self.flow
         if hasattr(node, 'finalbody'):
-            self.visit_in_flow(node.finalbody, self.flow)
+            # the finally block may branch itself, go on from where it ends
+            self.flow = self.visit_in_flow(node.finalbody, self.flow)
+            self.flow.scope.flow = self.flow
 
     visit_Try = visit_TryExcept
 
